@@ -1087,3 +1087,87 @@ Proof.
     + cbn -[Nat.eqb]. unfold updN, th. rewrite Nat.eqb_refl. cbn. unfold th in Hc. rewrite Hc. reflexivity.
     + intros u x w. unfold tpushes. cbn -[Nat.eqb]. unfold updN, th. destruct (Nat.eqb_spec u t) as [->|]; [|auto]. cbn. auto.
 Qed.
+
+(** ** the end of a command: the monitor sees [ERet v] *)
+Section DRet.
+  Variables (st st2 : wstate) (t : tid).
+  Hypothesis Esl : sl st2 = sl st.
+  Hypothesis Ewu : wused st2 = wused st.
+  Hypothesis Enf : nfill st2 = nfill st.
+  Hypothesis Edl : dl st2 = dl st.
+  Hypothesis Ho : forall u, u <> t -> thr st2 u = thr st u.
+  Hypothesis Hc : tcont (thr st t) = [].
+  Hypothesis Hc2 : tcont (thr st2 t) = [].
+  Hypothesis Hf2 : tfinal (thr st2 t) = tfinal (thr st t).
+  Hypothesis Hu2 : tcur (thr st2 t) = None.
+
+  Lemma d_clear : forall m, DRel DNone st m -> DRel DNone st2 m.
+  Proof.
+    intros m R. apply (d_frame st st2 m t R); auto.
+    - intros u Hu. rewrite (Ho u Hu). split; [reflexivity|]. intros w Hw. split; [exact Hw|reflexivity].
+    - intros w. rewrite Hu2. discriminate.
+    - rewrite Hc2. intros j [].
+    - rewrite Hc2. reflexivity.
+    - intros u x w. destruct (Nat.eq_dec u t) as [->|Hu]; [|rewrite (Ho u Hu); auto].
+      unfold tpushes. rewrite Hc2, Hf2, Hc. auto.
+  Qed.
+
+  Lemma d_ret_plain : forall m c v, DRel DNone st m -> get_tid t (b_cur (m12_b m)) = Some c -> (forall w, c <> CDropW w) ->
+    DRel DNone st2 (m12_step m (t, ERet v)).
+  Proof.
+    intros m c v R Hg Hn. eapply d_msame; [apply d_clear; exact R|].
+    unfold m12_step. rewrite Hg. destruct c; try (constructor; reflexivity). exfalso. eapply Hn; reflexivity.
+  Qed.
+
+  Lemma d_ret_unit : forall m w, DRel DNone st m -> get_tid t (b_cur (m12_b m)) = Some (CDropW w) -> tcur (thr st t) = Some (CDropW w) ->
+    DRel DNone st2 (m12_step m (t, ERet (tret (thr st t)))).
+  Proof.
+    intros m w R Hg Hu. apply d_clear.
+    destruct (d_cmd _ _ _ R t w Hu) as [[D _]|[_ [D2 [D3 [D4 D5]]]]]; [discriminate D|].
+    unfold m12_step. rewrite Hg, D3.
+    set (m' := mkM12 _ _ _ _ _).
+    assert (Pg : forall w0, prog st m' w0 <-> prog st m w0) by (intro w0; unfold prog; reflexivity).
+    constructor; cbn [dbegun m12_begun m12_done m12_dead m12_bad m'];
+      try (first [apply (d_bad _ _ _ R)|apply (d_uniq _ _ _ R)|apply (d_used _ _ _ R)|apply (d_nfill _ _ _ R)|apply (d_ypos _ _ _ R)
+                 |apply (d_ymain _ _ _ R)|apply (d_y _ _ _ R)|apply (d_dead _ _ _ R)|apply (d_push _ _ _ R)|apply (d_pipe _ _ _ R)|apply (d_pbad _ _ _ R)]; fail).
+    - intros w0 H. apply Pg. unfold memZ in H. cbn in H. apply orb_true_iff in H. destruct H as [H|H].
+      + apply Z.eqb_eq in H. subst w0. destruct D5 as [[x Hx]|D5]; [rewrite Hc in Hx; destruct Hx|exact D5].
+      + apply (d_done _ _ _ R w0 H).
+    - intros u w0 Hcu. destruct (d_cmd _ _ _ R u w0 Hcu) as [[D _]|[E1 [E2 [E3 [E4 E5]]]]]; [discriminate D|right].
+      split; [exact E1|]. split; [exact E2|]. split; [exact E3|]. split; [exact E4|]. destruct E5 as [E5|E5]; [left; exact E5|right; apply Pg; exact E5].
+  Qed.
+
+  Lemma d_ret_bad : forall m w v, DRel (DBad t w) st m -> get_tid t (b_cur (m12_b m)) = Some (CDropW w) -> v <> RUnit ->
+    DRel DNone st2 (m12_step m (t, ERet v)).
+  Proof.
+    intros m w v R Hg Hv.
+    destruct (d_pbad _ _ _ R t w eq_refl) as [Hu _].
+    destruct (d_cmd _ _ _ R t w Hu) as [[_ [old Eb]]|[X _]]; [|congruence].
+    assert (Em : exists b', m12_step m (t, ERet v) = mkM12 b' old (m12_done m) (m12_dead m) (m12_bad m)).
+    { unfold m12_step. rewrite Hg, Eb. cbn [rm_one]. rewrite Z.eqb_refl. destruct v; try (eexists; reflexivity). congruence. }
+    destruct Em as [b' ->]. set (m' := mkM12 b' old (m12_done m) (m12_dead m) (m12_bad m)).
+    assert (Bg : dbegun (DBad t w) m = old) by (cbn [dbegun]; rewrite Eb; reflexivity).
+    assert (Co : forall u, tcont (thr st2 u) = tcont (thr st u)).
+    { intro u. destruct (Nat.eq_dec u t) as [->|Hn]; [congruence|rewrite Ho; auto]. }
+    assert (Tp : forall u, tpushes (thr st2 u) = tpushes (thr st u)).
+    { intro u. destruct (Nat.eq_dec u t) as [->|Hn]; [|rewrite Ho; auto]. unfold tpushes. rewrite Hc2, Hf2, Hc. reflexivity. }
+    assert (Pl : pipeline st2 = pipeline st) by (unfold pipeline; rewrite Edl, Co; reflexivity).
+    assert (Pg : forall w0, prog st2 m' w0 <-> prog st m w0) by (intro w0; unfold prog; rewrite Pl, Esl, Co; reflexivity).
+    constructor; cbn [dbegun m12_begun m12_done m12_dead m12_bad m']; rewrite <- ?Bg.
+    - apply (d_bad _ _ _ R).
+    - rewrite Esl. apply (d_uniq _ _ _ R).
+    - rewrite Esl, Ewu, Enf. apply (d_used _ _ _ R).
+    - rewrite Enf. apply (d_nfill _ _ _ R).
+    - intros u i0 r0 j. rewrite Co. apply (d_ypos _ _ _ R).
+    - intros u j. rewrite Co. apply (d_ymain _ _ _ R).
+    - intros w0 d. rewrite Co, Esl, Ewu. apply (d_y _ _ _ R).
+    - rewrite Esl, Ewu. apply (d_dead _ _ _ R).
+    - intros u x w0. rewrite Tp, Ewu. apply (d_push _ _ _ R).
+    - rewrite Pl, Esl, Ewu. apply (d_pipe _ _ _ R).
+    - intros w0 H. apply Pg. apply (d_done _ _ _ R w0 H).
+    - intros u w0 Hcu. destruct (Nat.eq_dec u t) as [->|Hn]; [rewrite Hu2 in Hcu; discriminate Hcu|].
+      rewrite Ho in * by auto. destruct (d_cmd _ _ _ R u w0 Hcu) as [[D _]|[E1 [E2 [E3 [E4 E5]]]]]; [inversion D; congruence|right].
+      split; [discriminate|]. split; [exact E2|]. split; [exact E3|]. split; [exact E4|]. destruct E5 as [E5|E5]; [left; exact E5|right; apply Pg; exact E5].
+    - intros u w0 E. discriminate E.
+  Qed.
+End DRet.
